@@ -29,6 +29,13 @@ def run(ctx):
     check_arm_purity(ctx, "E2-A", P, with_mappers(P, fns))
     check_dispatching(ctx, "E2-A", P, [f for f in fns if f.key != "SignCryptCiphertext<C>::create_decryption_share"])
     check_tag_control_dependence(ctx, "E2-B", P, only={g.key for g in with_mappers(P, fns)})
+    # threshold decryption is offered for every scheme label (the label only selects the tag)
+    from . import spec as SP
+
+    for fk_, root_ in (("SignCryptCiphertext<C>::create_decryption_share", ("self", ".scheme")), ("SignDecryptionShare<C>::verify", ("sig", ".scheme"))):
+        g_ = P.fns.get(fk_)
+        if g_ is not None:
+            SP.check_scheme_total(ctx, "E2.total", P, g_, root_)
     f = P.fns.get("SignDecryptionShare<C>::verify")
     if f is not None:
         ev = evaluate(f)
